@@ -245,6 +245,14 @@ def run_once_e3(cfg: E3Config, chooser: Chooser, *, world_hook=None, around_run=
             req = [built.get(i, fr) for i, fr in base.requested]
             lab = labtech.Lab(storage=storage, runner_backend=backend, continue_on_failure=base.cof,
                               notebook=False, context=ctx, max_workers=cfg.max_workers)
+            if base.history:
+                measured[0] = False
+                e2.lab_history(lab, base, backend_events)
+                del gt[:]
+                measured[0] = True
+                world.record('history-done', base.history)
+                U.WORLD.reset(epoch=1, faults=[spec.labels[i] for i in base.faults], fault_exc=base.fault_exc,
+                              emit={spec.labels[i]: pat for i, pat in base.emit})
             import contextlib
             import io
             # with the displays on, tqdm and the task monitor write to stderr: keep the console quiet
